@@ -37,6 +37,7 @@ def read_cases(path, windows, bands=None):
     with rio.Env(GDAL_NUM_THREADS=1, GTIFF_FORCE_RGBA=False, GDAL_TIFF_INTERNAL_MASK=True), rio.open(path) as ds:
         H, W = ds.shape
         nonalpha = [bi + 1 for bi in range(ds.count) if ds.colorinterp[bi] != rio.enums.ColorInterp.alpha]
+        use_default = bands is None         # the library's own default band selection (all non-alpha bands) is part of what is read
         bands = bands or nonalpha
         is_masked = any(MaskFlags.per_dataset in ds.mask_flag_enums[bi - 1] for bi in bands)
         nodata = float('nan') if (is_masked or ds.nodata is None) else float(ds.nodata)
@@ -46,7 +47,7 @@ def read_cases(path, windows, bands=None):
             win = Window(c, r, w, h)
             rec = dict(window=[r, c, h, w], file=path.name, bands=bands)
             try:
-                ra = RasterArray.from_rio_dataset(ds, indexes=bands if len(bands) > 1 else bands[0], window=win)
+                ra = RasterArray.from_rio_dataset(ds, indexes=None if use_default else (bands if len(bands) > 1 else bands[0]), window=win)
             except Exception as ex:  # the property says reading never fails
                 rec.update(error=f'{type(ex).__name__}: {str(ex)[:120]}')
                 res.append(rec)
